@@ -41,14 +41,17 @@ MANIFEST = {
     'note': 'Trusted: Coq kernel/vm_compute; specification coq/theory/Circuit.v; hand model coq/theory/RewriteModel.v validated by '
             'correspondence on every run (simplify incl. namer, wires, dangling/disconnected removal, select/ignore/keep_nodes/passes; '
             'renumber, copy, expand, subs, s_model, noisy+kill_noise, replace_switches[_before]); in_series/in_parallel/'
-            '_find_combine_subsets and set enumeration order are recorded oracles whose contract is checked per answer; the link '
-            'from the flat netlist to the chain structure the theorems speak about is the executable contract check, not a Coq '
-            'theorem; ac_model (complex values) is covered by s_model_equiv for arbitrary fields but not by correspondence.',
+            '_find_combine_subsets and set enumeration order are recorded oracles whose contract is checked per answer; '
+            'series_combine_sound / parallel_combine_sound lift the chain theorems to whole netlists from the boolean facts the '
+            'contract check computes (walk on node names, private degree-2 joints, distinct names); they apply directly when the '
+            'recorded chain is a chain on node NAMES (counted per run), groups that only close through wires are covered by '
+            'correspondence and the electrical oracle; ac_model (complex values) is covered by s_model_equiv for arbitrary '
+            'fields but not by correspondence; expand is checked as the identity (no expandable components are generated).',
     'technique': 'Coq proof (port equivalence, series/parallel combination, converses) + hand model evaluated in Coq against the real '
                  'rewrites under 4 hash seeds + electrical solve-and-compare oracle',
 }
 
-THEORY = ['FieldSec', 'Circuit', 'RewriteEquiv', 'RewriteBranch', 'RewriteMore', 'RewriteModel', 'RewriteSem', 'RewriteCorr']
+THEORY = ['FieldSec', 'Circuit', 'RewriteEquiv', 'RewriteBranch', 'RewriteMore', 'RewriteModel', 'RewriteKeyed', 'RewriteSem', 'RewriteCorr']
 HASHSEEDS = [0, 1, 2, 3]
 TAGS = {1: 'polarity:V', 2: 'polarity:I', 3: 'polarity:ic:C-series', 4: 'polarity:ic:L-parallel', 5: 'ic-sum:L-series',
         6: 'ic-sum:C-parallel', 7: 'ic-mixed:C-series', 8: 'ic-mixed:L-parallel', 9: 'kw-mixed'}
@@ -105,6 +108,10 @@ def gen_cases(rng, tier):
             icm = 'unequal' if op in ('s_model', 'renumber', 'renumber_map') and rng.random() < 0.7 else 'none'
             nl = G.gen_netlist(rng, 'mixed', icm, 'same', extras=False, small=True, kw='step' if op == 's_model' else None)
             lines = nl['lines']
+            if op == 'noisy_kill':
+                # RC._noisy names the noiseless resistor N<name>: a user component of that name would be overwritten
+                # (acknowledged in the source); keep the generated names apart
+                lines = [l for l in lines if not l.startswith('NR')] or lines
             if op in ('renumber', 'renumber_map', 'copy') and rng.random() < 0.5:
                 lines = G.add_wire_split(rng, lines)
             c = {'netlist': lines, 'tags': nl['tags'] + [op], 'op': op, 'args': {}, 's0': '%d/%d' % (rng.randint(1, 9), rng.randint(1, 4))}
@@ -380,6 +387,9 @@ def run(tier='quick', replay=None):
                     d, badenc = simplify_defs(tag, c, r)
                     if d is None:
                         res.count('not_encodable')
+                        if 'unmapped name' in str(badenc):
+                            meta[gid] = ('unmapped', ci, ri, badenc)
+                            gid += 1
                         continue
                     items.append((gid, d, '(%d, simplify_code vr g_%s n_%s t_%s e_%s, simplify_flags vr g_%s n_%s t_%s)' % (gid, tag, tag, tag, tag, tag, tag, tag)))
                     meta[gid] = ('simplify', ci, ri)
@@ -451,6 +461,10 @@ def run(tier='quick', replay=None):
             c = cases[ci]
             r = runs[ci][ri]
             code, flags, events = results.get(g, (None, None, None))
+            if kind == 'unmapped':
+                add('correspondence:simplify:name', 'the rewritten netlist contains a component name the model cannot produce: ' + str(m[3]),
+                    c, found_input=False, rewritten=r.get('text'), correspondence='LT.RewriteModel.fresh_name')
+                continue
             if kind == 'other_skip':
                 res.count('skipped:%s:%s' % (c['op'], str(m[3])[:40]))
                 if has_none_arg(r) or 'None' in str(m[3]):
@@ -539,6 +553,35 @@ def run(tier='quick', replay=None):
             texts_ = {r.get('text') for r in runs.get(ci, []) if 'text' in r}
             if len(texts_) > 1:
                 res.count('outputs_differ_across_hash_seeds')
+        if replay and 'case' in replay:
+            ci = len(PROBES)
+            c = cases[ci]
+            print('REPLAY case: op=%s args=%s netlist=%s' % (c['op'], json.dumps(c.get('args', {})), ' | '.join(c['netlist'])))
+            for g, m in sorted(meta.items()):
+                if m[1] != ci:
+                    continue
+                r = runs[ci][m[2]]
+                code, flags, events = results.get(g, (None, None, None))
+                print('REPLAY implementation (PYTHONHASHSEED=%s): %s' % (r.get('hashseed'), ('raised ' + r['exc']) if 'exc' in r else r.get('text', '').replace('\n', ' | ')))
+                print('REPLAY model: code=%s (%s) contracts(subsets,in_series/in_parallel,no-ground-inside,chain-on-node-names)=%s failed-preconditions=%s'
+                      % (code, 'agrees' if code == 0 else CODES.get(code, {5: 'agrees with the unchanged-tree model', 6: 'agrees with the unchanged-tree model'}.get(code, '?')),
+                         flags, [TAGS.get(e, e) for e in (events or [])]))
+                if m[0] == 'switch':
+                    print('REPLAY oracle (switch state spec): %s' % (m[3] or 'agrees'))
+                else:
+                    so = sol_of(('o', ci))
+                    sn = sol_of(('n', ci, r.get('text'))) if 'text' in r else None
+                    if 'new' in r and so is not None and 'error' not in so:
+                        co = c
+                        if c['op'] == 'renumber':
+                            nm = dict(c.get('args', {}).get('node_map') or {})
+                            for ent in r.get('log', []):
+                                if ent[0] == 'node_map':
+                                    nm = ent[1]
+                            co = dict(c, node_rename=nm)
+                        print('REPLAY oracle (solve both circuits): %s' % (G.oracle(co, r['orig'], r['new'], so, sn, r.get('log')) or 'retained voltages and currents agree'))
+                    else:
+                        print('REPLAY oracle: not comparable (original unsolvable or the rewrite raised)')
         res.programs = nprog
         res.rule = ('netlists built from a random skeleton whose edges are expanded into series chains (2-4 elements, like elements R/NR/C/L/V/Z/Y '
                     'with foreign elements in between) and parallel groups (R/NR/C/L/I/Y/Z), random orientation per element, initial conditions '
